@@ -47,6 +47,9 @@ def deliberate():
             out.append({"wc": wc, "batch": b, "steps": [P(5), P(6), I(2), P(1), P(3), I(1)]})      # removed containers
             out.append({"wc": wc, "batch": b, "steps": [M(1, [1]), P(3), P(1), P(2), P(4), M(1, [2, 4])]})  # tombstone first, marked lock
             out.append({"wc": wc, "batch": b, "steps": [EP, EP, EP, GC, P(2), P(3), P(4), P(6)]})   # stored already expired, epoch processed
+            # expired objects BEHIND an expired object that is still locked (same container, later in the expiration index)
+            out.append({"wc": wc, "batch": b, "steps": [P(2), P(4), P(7), EP, EP, GC, GC]})          # lock 4 valid at epoch 2: 7 must go, 2 stays
+            out.append({"wc": wc, "batch": b, "steps": [P(7), P(8), P(3), P(4), P(2), EP, EP, EP, GC]})   # 7 locked for ever: 2, 3, 4 behind / around it must still go
     return out
 
 
@@ -61,6 +64,7 @@ def run(ck):
         if thorough:
             ck.tlc_model("Shard", "Shard_C44t.cfg", timeout=3000, files=su.cfg_files(world, "Shard_C44t.cfg"))
             ck.tlc_model("Shard", "Shard_C44u.cfg", timeout=3000, files=su.cfg_files(world, "Shard_C44u.cfg"))
+            ck.tlc_model("Shard", "Shard_C44v.cfg", timeout=3000, files=su.cfg_files(world, "Shard_C44v.cfg"))   # expired tombstone behind an object locked for ever
         ck.setcov("exhaustive", True)
         ck.setcov("liveness_checked", "C44Live C44Stable under WF(GC progress) /\\ SF(epoch tick), no state constraint")
         ck.setcov("constants", "quick: Objs={1,3 TS->1,5} batch=1 epochs 0..3 Put GC Epoch InhumeCnr Quiesce, K=6" +
